@@ -10,7 +10,6 @@ import (
 	"github.com/weedbox/pokertable/internal/verifrt"
 	"github.com/weedbox/pokertable/seat_manager"
 	"github.com/weedbox/syncsaga"
-	"github.com/weedbox/timebank"
 )
 
 var vhIDs = []string{"p0", "p1", "p2", "p3", "p4", "p5", "p6", "p7", "p8", "p9"}
@@ -194,6 +193,12 @@ func vhArbitraryGS(tag string, m int) *pokerface.GameState {
 // rule set it before building).
 var vhRule = CompetitionRule_Default
 
+// vhConcreteLayout: when set, vhNewWorld seats player i on seat i, everybody
+// seated-in with chips and not waiting, buttons on seats 0/1/2 (heads-up: 0/0/1).
+// Used by the obligations whose quantifier does not range over seat layouts
+// (life cycle, continue handler); everything else stays symbolic.
+var vhConcreteLayout = false
+
 type vhWorld struct {
 	te  *tableEngine
 	rec *vhRec
@@ -226,12 +231,11 @@ func vhArbitraryStats(i int) TablePlayerGameStatistics {
 // real one.
 func vhNewWorld(n, M, hand int, withGame bool) *vhWorld {
 	w := &vhWorld{n: n, M: M, rec: &vhRec{}, bk: &vhBackend{m: hand, tag: "bk0"}}
-	te := &tableEngine{
-		options:       &TableEngineOptions{GameContinueInterval: verifrt.IntRange("opt.continue", 0, 3), OpenGameTimeout: 2},
-		rg:            syncsaga.NewReadyGroup(),
-		tbForOpenGame: timebank.NewTimeBank(),
-		gameBackend:   w.bk,
-	}
+	// the engine is wired by the real constructor and CreateTable (open-game manager with
+	// the real OnOpenGameReady callback); table and seat manager are then replaced by
+	// arbitrary ones
+	te := NewTableEngine(&TableEngineOptions{GameContinueInterval: verifrt.IntRange("opt.continue", 0, 3), OpenGameTimeout: 2}, WithGameBackend(w.bk)).(*tableEngine)
+	te.CreateTable(TableSetting{TableID: "T1", Meta: TableMeta{TableMaxSeatCount: M, TableMinPlayerCount: 2, Rule: vhRule, Mode: CompetitionMode_CT}, Blind: TableBlindState{Level: 1}})
 	w.te = te
 	w.rec.install(te)
 	rule := vhRule
@@ -257,7 +261,10 @@ func vhNewWorld(n, M, hand int, withGame bool) *vhWorld {
 	te.table = t
 	seats := make([]seat_manager.VHSeat, M)
 	for i := 0; i < n; i++ {
-		s := verifrt.IntRangeI("seat", i, 0, M-1)
+		s := i
+		if !vhConcreteLayout {
+			s = verifrt.IntRangeI("seat", i, 0, M-1)
+		}
 		for j := 0; j < i; j++ {
 			verifrt.Assume(st.PlayerStates[j].Seat != s)
 		}
@@ -266,12 +273,23 @@ func vhNewWorld(n, M, hand int, withGame bool) *vhWorld {
 		verifrt.Assume(p.Bankroll >= 0 && p.Bankroll < 1<<40)
 		st.PlayerStates = append(st.PlayerStates, p)
 		st.SeatMap[s] = i
-		seats[s] = seat_manager.VHSeat{Occ: true, ID: vhIDs[i], In: p.IsIn, Btw: verifrt.BoolI("btw", i), Chips: verifrt.BoolI("chips", i)}
+		if vhConcreteLayout {
+			p.IsIn = true
+			seats[s] = seat_manager.VHSeat{Occ: true, ID: vhIDs[i], In: true, Btw: false, Chips: true}
+		} else {
+			seats[s] = seat_manager.VHSeat{Occ: true, ID: vhIDs[i], In: p.IsIn, Btw: verifrt.BoolI("btw", i), Chips: verifrt.BoolI("chips", i)}
+		}
 	}
 	init := verifrt.Bool("sm.init")
 	D := verifrt.IntRange("sm.D", -1, M-1)
 	SB := verifrt.IntRange("sm.SB", -1, M-1)
 	BB := verifrt.IntRange("sm.BB", -1, M-1)
+	if vhConcreteLayout {
+		init, D, SB, BB = true, 0, 1, 2
+		if n == 2 {
+			SB, BB = 0, 1
+		}
+	}
 	if init && rule == CompetitionRule_ShortDeck {
 		verifrt.Assume(D >= 0 && SB == -1 && BB == -1)
 	} else if init {
